@@ -122,7 +122,7 @@ static void check_eq(const PredC &c, vf::Obs &o) {
   }
   auto a2 = make_spline<T, oa>(grid, sa);
   bool distinct_grid_object = c.relation == 4 || c.relation == 5 || (c.which & 2) != 0;
-  auto gridb = distinct_grid_object ? make_grid<T>(g2) : grid;
+  auto gridb = distinct_grid_object ? make_equal_grid<T>(g2) : grid;
   auto b = make_spline<T, oa>(gridb, sb);
   const auto &A = (c.relation == 6) ? a2 : a;
   const SplineC &SA = (c.relation == 6) ? sa : c.a;
